@@ -61,6 +61,10 @@ type EntityKeys struct {
 	Name   string
 	Signer signature.Signer
 	Nodes  []*NodeKeys
+	// Listed is the entity's current node list when it was changed at run time (nil = genesis list).
+	Listed map[signature.PublicKey]bool
+	// Candidates are nodes the entity has whitelisted at run time that have not registered yet.
+	Candidates []*NodeKeys
 }
 
 // Address returns the entity's staking address.
